@@ -292,7 +292,10 @@ class FakeSocket:
         return 1000 + self.sid
 
     def shutdown(self, how):
-        pass
+        # like a real socket: shutting down a connection the peer has already torn down fails with ENOTCONN
+        self._check_usable("shutdown")
+        if self.state != "connected" or (self.conn is not None and self.conn.peer_closed):
+            raise OSError(errno.ENOTCONN, "Transport endpoint is not connected")
 
 
 class FakeTLSContext:
